@@ -367,7 +367,7 @@ package main
 //@   property C19 C17
 //@   hooks fs linkrun linker
 //@   maxpaths 4000
-//@   requires !lockHeld && !everLocked && unlocks == 0 && !built && !stamped && !linkPatched
+//@   requires !lockHeld && !everLocked && unlocks == 0 && !built && !stamped && !linkPatched && !anySelected
 //@   ensures @lock-released-once-after-the-link: linkPatched ==> !lockHeld && unlocks == 1
 //@   ensures @no-lock-leak: !lockHeld
 //@ end
@@ -493,4 +493,9 @@ package main
 //@   property C14
 //@   assigns nothing
 //@   skip safety
+//@ end
+
+//@ func (*sharedCacheType).MarshalMsg
+//@   trusted generated msgp encoder: appends to the buffer it is given, does not modify the value
+//@   assigns nothing
 //@ end
